@@ -261,6 +261,14 @@ Section RelSound.
 
   Ltac triv H := inversion H; subst; split; [apply Post_refl|discriminate].
 
+  Lemma fields_sub_refl (l : list (option nat * nat)) :
+    (forall f0, In f0 l -> CF (snd f0)) -> Forall2 (fields_sub P) l l.
+  Proof.
+    induction l as [|a l IHl]; intros Hl; constructor.
+    - split; [reflexivity|]. eapply sub_refl. apply Hl. left; reflexivity.
+    - apply IHl. intros f0 Hf0. apply Hl. right; exact Hf0.
+  Qed.
+
   Lemma check_sound : forall fuel A ss ps s p b A1,
     CF s -> CF p -> Inv A (S (s + p)) ->
     check_rel cfg P All fuel A ss ps s p = Some (b, A1) ->
@@ -299,7 +307,166 @@ Section RelSound.
     rewrite Hls, Hlp in H; cbn in H;
     try (destruct vs as [|v0 vs]; cbn in H);
     try (triv H; fail).
-    all: idtac.
-    Show.
-  Admitted.
+    (* leaves *)
+    all: try (inversion H; subst; split; [apply Post_refl|intros _];
+              first [eapply sub_int; eassumption|eapply sub_bin; eassumption|eapply sub_ref; eassumption
+                    |eapply sub_empty_union; eassumption]; fail).
+    all: try (match goal with
+              | Hr : Some (?r =? ?r0, _) = Some _ |- _ =>
+                destruct (r =? r0) eqn:Hrr; inversion Hr; subst; split;
+                [apply Post_refl|intros _|apply Post_refl|discriminate];
+                apply Nat.eqb_eq in Hrr; subst; eapply sub_res; eassumption
+              end; fail).
+    (* union on the left (non-empty) *)
+    all: try (eapply Hins; [|exact H]; intros b0 A2 Hr;
+              destruct (all_left_spec (check_rel cfg P All f) (s + p) HRS p Hp (v0 :: vs) ((s, p) :: A) _ ps b0 A2
+                          (fun v Hv => conj (Hvs v Hv) (proj1 (Nat.add_lt_mono_r v s p) (topo_union _ _ _ Hls Hv)))
+                          HIk Hr) as [HP Hall];
+              split; [exact HP|intros Hb; eapply sub_union_left; [exact Hls|apply Hall; exact Hb]]; fail).
+    (* union on the right *)
+    all: try (eapply Hins; [|exact H]; intros b0 A2 Hr;
+              destruct (any_right_spec (check_rel cfg P All f) (s + p) HRS s Hs ws ((s, p) :: A) ss _ b0 A2
+                          (fun v Hv => conj (Hws v Hv) (proj1 (Nat.add_lt_mono_l v p s) (topo_union _ _ _ Hlp Hv)))
+                          HIk Hr) as [HP Hex];
+              split; [exact HP|intros Hb; destruct (Hex Hb) as [u [Hu Hsu]]; eapply sub_union_right; eassumption]; fail).
+    - (* tuple / tuple *)
+      destruct (tid1 =? tid2) eqn:Ht.
+      + apply Nat.eqb_eq in Ht. subst tid2. rewrite Hlt1 in Hlt2. inversion Hlt2; subst info2.
+        inversion H; subst. split; [apply Post_refl|intros _].
+        eapply sub_tuple; [exact Hls|exact Hlp|exact Hlt1|exact Hlt1|reflexivity|].
+        apply fields_sub_refl. exact Hfs1.
+      + rewrite Hlt1, Hlt2 in H.
+        destruct (opt_eqb (tname info1) (tname info2) && (length (tfields info1) =? length (tfields info2))) eqn:Hc;
+          [|triv H].
+        apply andb_true_iff in Hc. destruct Hc as [Hn Hlen]. apply opt_eqb_eq in Hn. apply Nat.eqb_eq in Hlen.
+        destruct (tuple_fields_spec (check_rel cfg P All f) (s + p) HRS (tfields info1) (tfields info2) A ss ps b A1 Hlen
+                    Hfs1 Hfs2
+                    (fun a c Ha Hc0 => Nat.add_lt_mono _ _ _ _ (topo_tuple _ _ _ _ Hls Hlt1 Ha) (topo_tuple _ _ _ _ Hlp Hlt2 Hc0))
+                    HI' H) as [HP HF].
+        split; [exact HP|intros Hb]. eapply sub_tuple; [exact Hls|exact Hlp|exact Hlt1|exact Hlt2|exact Hn|apply HF; exact Hb].
+    - (* tuple / partial *)
+      rewrite Hlt1 in H.
+      destruct (match pn2 with Some pname => opt_eqb (tname info1) (Some pname) | None => true end) eqn:Hn; [|triv H].
+      destruct (all_partial_fields_spec (check_rel cfg P All f) (s + p) HRS (tfields info1) Hfs1 pf2 A ss ps b A1 Hpf2
+                  (fun a f0 Ha Hf0 => Nat.add_lt_mono _ _ _ _ (topo_tuple _ _ _ _ Hls Hlt1 Ha) (topo_partial _ _ _ _ Hlp Hf0))
+                  HI' H) as [HP Hall].
+      split; [exact HP|intros Hb]. eapply sub_tuple_partial; [exact Hls|exact Hlt1|exact Hlp| |apply Hall; exact Hb].
+      destruct pn2; [right; apply opt_eqb_eq in Hn; congruence|left; reflexivity].
+    - (* partial / tuple *)
+      rewrite andb_false_r in H. triv H.
+    - (* partial / partial *)
+      assert (Hnames : forall clash : bool,
+                 (if cfg_partial_name cfg && true
+                  then match pn2 with Some _ => negb (opt_eqb pn1 pn2) | None => false end
+                  else match pn1, pn2 with Some n1, Some n2 => negb (n1 =? n2) | _, _ => false end) = false ->
+                 pn2 = None \/ pn1 = pn2).
+      { intros _ Hcl. rewrite andb_true_r in Hcl. destruct (cfg_partial_name cfg) eqn:Hpn.
+        - destruct pn2; [|left; reflexivity]. right. apply negb_false_iff in Hcl. apply opt_eqb_eq in Hcl. exact Hcl.
+        - destruct Hnamed as [Hx|Hx]; [rewrite Hx in Hpn; discriminate|].
+          destruct Hnm2 as [Hy|Hy]; [rewrite Hx in Hy; discriminate|]. left; exact Hy. }
+      match type of H with (if ?c then _ else _) = _ => destruct c eqn:Hcl end; [triv H|].
+      specialize (Hnames true eq_refl).
+      destruct (all_partial_partial_spec (check_rel cfg P All f) (s + p) HRS pf1 Hpf1 pf2 A ss ps b A1 Hpf2
+                  (fun a f0 Ha Hf0 => Nat.add_lt_mono _ _ _ _ (topo_partial _ _ _ _ Hls Ha) (topo_partial _ _ _ _ Hlp Hf0))
+                  HI' H) as [HP Hall].
+      split; [exact HP|intros Hb]. eapply sub_partial_partial; [exact Hls|exact Hlp|exact Hnames|apply Hall; exact Hb].
+    - (* callable / callable *)
+      destruct (topo_callable _ _ _ _ Hls) as [Hp1 [Hr1 Hc1]].
+      destruct (topo_callable _ _ _ _ Hlp) as [Hp2 [Hr2 Hc2]].
+      unfold and_then in H.
+      match type of H with match ?e with _ => _ end = _ => destruct e as [[b1 A1']|] eqn:E1 end; [|discriminate].
+      destruct (HRS _ _ _ _ _ _ _ Hcp2 Hcp1 ltac:(lia) HI' E1) as [HP1 Hs1].
+      destruct b1; [|inversion H; subst; split; [exact HP1|discriminate]].
+      match type of H with match ?e with _ => _ end = _ => destruct e as [[b2 A2']|] eqn:E2 end; [|discriminate].
+      destruct (HRS _ _ _ _ _ _ _ Hcr1 Hcr2 ltac:(lia) (Inv_Post _ _ _ HI' HP1) E2) as [HP2 Hs2].
+      destruct b2; [|inversion H; subst; split; [eapply Post_trans; eassumption|discriminate]].
+      destruct (HRS _ _ _ _ _ _ _ Hcc2 Hcc1 ltac:(lia) (Inv_Post _ _ _ (Inv_Post _ _ _ HI' HP1) HP2) H) as [HP3 Hs3].
+      split; [eapply Post_trans; [eapply Post_trans|]; eassumption|intros Hb].
+      eapply sub_callable; [exact Hls|exact Hlp|apply Hs1; reflexivity|apply Hs2; reflexivity|apply Hs3; exact Hb].
+    - (* process / process *)
+      destruct (topo_process _ _ _ Hls) as [Hs1' Hr1'].
+      destruct (topo_process _ _ _ Hlp) as [Hs2' Hr2'].
+      match type of H with match ?e with _ => _ end = _ => destruct e as [[b1 A1']|] eqn:E1 end; [|discriminate].
+      destruct (HRS _ _ _ _ _ _ _ Hcs1 Hcs2 ltac:(lia) HI' E1) as [HP1 Hsub1].
+      match type of H with match ?e with _ => _ end = _ => destruct e as [[b2 A2']|] eqn:E2 end; [|discriminate].
+      destruct (HRS _ _ _ _ _ _ _ Hcr1 Hcr2 ltac:(lia) (Inv_Post _ _ _ HI' HP1) E2) as [HP2 Hsub2].
+      inversion H; subst. split; [eapply Post_trans; eassumption|intros Hb].
+      apply andb_true_iff in Hb. destruct Hb as [Hb1 Hb2].
+      eapply sub_process; [exact Hls|exact Hlp|apply Hsub1; exact Hb1|apply Hsub2; exact Hb2].
+  Qed.
 End RelSound.
+
+(* ------------------------------------------------------------------ boolean domain predicate *)
+Section Domain.
+  Variable P : registry.
+  Variable named_ok : bool.
+
+  (* cycle-free, variable-free, processes with both directions known (boolean form of CF) *)
+  Fixpoint cfb (k : nat) (t : nat) : bool :=
+    match k with
+    | 0 => false
+    | S k' =>
+      match lookup_type P t with
+      | Some TInteger | Some TBinary | Some TReference | Some (TResource _) => true
+      | Some (TUnion vs) => forallb (cfb k') vs
+      | Some (TTuple tid) =>
+        match lookup_tuple P tid with
+        | Some info => forallb (fun f => cfb k' (snd f)) (tfields info)
+        | None => false
+        end
+      | Some (TPartial pn fs) =>
+        (named_ok || match pn with None => true | Some _ => false end) && forallb (fun f => cfb k' (snd f)) fs
+      | Some (TCallable p r rc) => cfb k' p && cfb k' r && cfb k' rc
+      | Some (TProcess (Some s) (Some r)) => cfb k' s && cfb k' r
+      | _ => false
+      end
+    end.
+
+  Lemma cfb_CF : forall k t, cfb k t = true -> CF P named_ok t.
+  Proof.
+    induction k as [|k IH]; intros t H; [discriminate|]. cbn in H.
+    destruct (lookup_type P t) as [ty|] eqn:Hl; [|discriminate].
+    destruct ty as [| | |tid|pn fs|p r rc|d|vs|s r|r|v]; try discriminate.
+    - eapply CF_int; eassumption.
+    - eapply CF_bin; eassumption.
+    - eapply CF_ref; eassumption.
+    - destruct (lookup_tuple P tid) as [info|] eqn:Ht; [|discriminate].
+      eapply CF_tuple; [eassumption|eassumption|]. rewrite forallb_forall in H. intros f Hf. apply IH. apply H. exact Hf.
+    - apply andb_true_iff in H. destruct H as [Hn Hf].
+      eapply CF_partial; [eassumption| |].
+      + destruct named_ok; [left; reflexivity|]. destruct pn; [discriminate|right; reflexivity].
+      + rewrite forallb_forall in Hf. intros f Hin. apply IH. apply Hf. exact Hin.
+    - apply andb_true_iff in H. destruct H as [H Hc]. apply andb_true_iff in H. destruct H as [Hp Hr].
+      eapply CF_callable; [eassumption|apply IH; assumption|apply IH; assumption|apply IH; assumption].
+    - eapply CF_union; [eassumption|]. rewrite forallb_forall in H. intros u Hu. apply IH. apply H. exact Hu.
+    - destruct s as [s|]; [|discriminate]. destruct r as [r|]; [|discriminate].
+      apply andb_true_iff in H. destruct H as [Hs Hr].
+      eapply CF_process; [eassumption|apply IH; assumption|apply IH; assumption].
+    - eapply CF_res; eassumption.
+  Qed.
+End Domain.
+
+(* the fragment on which compat_sound is proved *)
+Definition cf_domain (cfg : rel_cfg) (P : registry) (t : nat) : bool :=
+  topob P && cfb P (cfg_partial_name cfg) (S (length (types P))) t.
+
+Theorem compat_sound_cf : forall cfg P fuel a b,
+  cfg_retract cfg = true ->
+  cf_domain cfg P a = true -> cf_domain cfg P b = true ->
+  is_compatible_with cfg fuel P a b = Some true ->
+  forall n v, inhab P n [] v a -> inhab P n [] v b.
+Proof.
+  intros cfg P fuel a b Hret Ha Hb Hc n v Hv.
+  unfold cf_domain in *. apply andb_true_iff in Ha. destruct Ha as [Ht Ha]. apply andb_true_iff in Hb. destruct Hb as [_ Hb].
+  apply topob_topo in Ht. apply cfb_CF in Ha. apply cfb_CF in Hb.
+  unfold is_compatible_with in Hc.
+  destruct (check_rel cfg P All fuel [] [] [] a b) as [[r A1]|] eqn:Hr; [|discriminate]. cbn in Hc. inversion Hc; subst r.
+  assert (Hnamed : cfg_partial_name cfg = true \/ cfg_partial_name cfg = false) by (destruct (cfg_partial_name cfg); auto).
+  destruct (check_sound cfg P (cfg_partial_name cfg) Hret Hnamed Ht fuel [] [] [] a b true A1 Ha Hb
+              (fun k (Hin : In k []) => match Hin with end) Hr) as [_ Hsub].
+  eapply (Hsub eq_refl). exact Hv.
+Qed.
+
+(* reflexivity holds outright (fast path), for every registry and every id *)
+Theorem compat_refl_all : forall cfg P fuel a, is_compatible_with cfg (S fuel) P a a = Some true.
+Proof. intros. unfold is_compatible_with. cbn. unfold step. rewrite Nat.eqb_refl. reflexivity. Qed.
